@@ -195,7 +195,7 @@ def _maxdiff(a, b):
 
 
 def sig(c):
-    return f"h={c['h']},bias={int(c['bias'])},bias_kv={int(c['abkv'])},zero_attn={int(c['aza'])},kdim={c['kdim']},vdim={c['vdim']},batch_first={int(c['bf'])},mask={c['mask']['kind']},kpm={c['kpm']['kind']}"
+    return ("need_weights=False," if not c.get("nw", True) else "") + f"h={c['h']},bias={int(c['bias'])},bias_kv={int(c['abkv'])},zero_attn={int(c['aza'])},kdim={c['kdim']},vdim={c['vdim']},batch_first={int(c['bf'])},mask={c['mask']['kind']},kpm={c['kpm']['kind']}"
 
 
 def oracle(case):
@@ -235,7 +235,9 @@ def oracle(case):
             key = f"C14:dp-raises:{rd['status'][4:40]}"
         return (key, f"nn.MultiheadAttention accepts the input, DPMultiheadAttention raises {rd['message'][:150]} [{sig(case)}, L={case['L']} S={case['S']} B={case['B']}]",
                 {"torch_out": R.flat(rt["out"])[:16]})
-    dw = _maxdiff(rt["w"], rd["w"])
+    if (rt["w"] is None) != (rd["w"] is None):
+        return ("C14:weights-differ", f"need_weights={case.get('nw', True)}: attention weights returned by only one of the layers [{sig(case)}]", {})
+    dw = _maxdiff(rt["w"], rd["w"]) if rt["w"] is not None else 0
     do = _maxdiff(rt["out"], rd["out"])
     if dw > 0:
         return ("C14:weights-differ", f"averaged attention weights differ by {dw:.3g} [{sig(case)}]", {"torch": R.flat(rt["w"])[:32], "dp": R.flat(rd["w"])[:32]})
@@ -243,7 +245,7 @@ def oracle(case):
         key = KEY_MERGE if (case["bf"] and case["h"] > 1 and case["L"] > 1) else "C14:output-differs"
         return (key, f"attention output differs from nn.MultiheadAttention by {do:.3g} [{sig(case)}, L={case['L']} S={case['S']} B={case['B']}]",
                 {"torch": R.flat(rt["out"])[:32], "dp": R.flat(rd["out"])[:32]})
-    if not (torch.isnan(rt["out"]).any() or torch.isnan(rt["w"]).any()):
+    if not (torch.isnan(rt["out"]).any() or (rt["w"] is not None and torch.isnan(rt["w"]).any())):
         gd = R.dp_param_grads_as_torch(dp, case)
         for name, p in tl.named_parameters():
             if p.grad is None and name not in gd:
@@ -396,7 +398,11 @@ def run_cases(ctx, cases, variant, known):
 
 def search(ctx, cases):
     """failing-input search with the property oracle on the real code"""
-    for c in cases:
+    for i, c in enumerate(cases):
+        if i % 3 == 2:
+            # the way nn.TransformerEncoderLayer / DecoderLayer call their attention: no weights requested
+            c = dict(c, nw=False)
+            ctx.count("search:oracle:need_weights=False")
         ctx.count("search:oracle")
         res = oracle(c)
         if res:
